@@ -1319,11 +1319,16 @@ Section PEPipeline.
   Variable deser0 : bytes -> option (sigblob pubk sigv).      (* pkcs7.Unmarshal: trailing zero bytes are ignored *)
   Hypothesis deser_padded : forall b n, deser0 (ser0 b ++ zeros n) = Some b.
   Hypothesis ser_bytes : forall b, all_bytes (ser0 b) = true.
-  Hypothesis ser_small : forall b, zlen (ser0 b) < 4294967296 - 40.
+  (* NOTE: no hypothesis bounds the length of EVERY encoding (with deser_padded that would be unsatisfiable: an injective
+     encoding of infinitely many blobs cannot be bounded); the bound is a premise on the blobs actually embedded *)
 
   Let ser (b : sigblob pubk sigv) : bytes := pad8 (ser0 b).
   Let deser_ser : forall b, deser0 (ser b) = Some b.
   Proof. intros b. unfold ser, pad8. apply deser_padded. Qed.
+
+  (* the SignedData produced for digest input pre by key k with algorithm a fits a certificate table (< 4 GiB) *)
+  Definition small_for (pre : bytes) (k : key) (a : Z) : Prop :=
+    zlen (ser0 (mksig key pubk sigv pub sign tbs k a (H a pre))) < 4294967296 - 40.
 
   (* relic's signing and re-signing on the faithful functions *)
   Definition sign_pe (k : key) (a : Z) (f : bytes) : result bytes :=
@@ -1335,44 +1340,53 @@ Section PEPipeline.
     end.
   Definition verify_pe (g : bytes) : verdict pubk := verify_file pubk sigv H vrfy tbs deser0 bytes pe_format g.
 
-  Lemma blob_dom_ser b : blob_dom (ser b) = true.
+  Lemma blob_dom_ser b : zlen (ser0 b) < 4294967296 - 40 -> blob_dom (ser b) = true.
   Proof.
-    unfold blob_dom, ser. rewrite zlen_pad8. pose proof (padded_spec _ (zlen_nonneg (ser0 b))) as [P1 P2]. pose proof (ser_small b).
+    intros Hs. unfold blob_dom, ser. rewrite zlen_pad8. pose proof (padded_spec _ (zlen_nonneg (ser0 b))) as [P1 P2].
     apply andb_true_iff. split; [apply Z.ltb_lt; lia|apply Z.eqb_eq; exact P2].
   Qed.
-  Lemma sign_file_eq k a f : all_bytes f = true ->
+  Lemma sign_file_eq k a f : all_bytes f = true -> (forall pre, hashin f = Ok pre -> small_for pre k a) ->
     sign_file key pubk sigv H pub sign tbs ser bytes pe_format k a f = sign_pe k a f.
   Proof.
-    intros Hf. unfold sign_file, sign_pe. cbn [f_hashin f_embed pe_format].
+    intros Hf Hs. unfold sign_file, sign_pe. cbn [f_hashin f_embed pe_format].
     destruct (hashin f) as [pre| |]; cbn [bind]; try reflexivity.
-    unfold embed_dom. rewrite Hf, blob_dom_ser. unfold ser at 1. rewrite all_bytes_pad8 by apply ser_bytes. cbn [andb].
+    unfold embed_dom. rewrite Hf, blob_dom_ser by (apply Hs; reflexivity). unfold ser at 1. rewrite all_bytes_pad8 by apply ser_bytes. cbn [andb].
     unfold ser. apply embed_pad8.
   Qed.
-  Lemma sign_pe_bytes k a f g : all_bytes f = true -> sign_pe k a f = Ok g -> all_bytes g = true.
+  Lemma sign_pe_inv k a f g : all_bytes f = true -> (forall pre, hashin f = Ok pre -> small_for pre k a) -> sign_pe k a f = Ok g ->
+    all_bytes g = true /\ hashin g = hashin f.
   Proof.
-    intros Hf Hs. unfold sign_pe in Hs. destruct (hashin f) as [pre| |]; cbn [bind] in Hs; try discriminate.
-    eapply embed_bytes; [exact Hf|apply ser_bytes| |exact Hs]. unfold sig_ok. pose proof (ser_small (mksig key pubk sigv pub sign tbs k a (H a pre))). lia.
+    intros Hf Hsm Hs. unfold sign_pe in Hs. destruct (hashin f) as [pre| |] eqn:E; cbn [bind] in Hs; try discriminate.
+    assert (So : sig_ok (ser0 (mksig key pubk sigv pub sign tbs k a (H a pre)))) by (unfold sig_ok; pose proof (Hsm pre eq_refl) as S; unfold small_for in S; lia).
+    split.
+    - eapply embed_bytes; [exact Hf|apply ser_bytes|exact So|exact Hs].
+    - rewrite <- E. eapply law_hashin_pe; [exact Hf|exact So|exact Hs].
   Qed.
   Lemma resign_eq hist : forall f, all_bytes f = true ->
+    (forall pre k a, hashin f = Ok pre -> In (k, a) hist -> small_for pre k a) ->
     resign key pubk sigv H pub sign tbs ser bytes pe_format hist f = resign_pe hist f.
   Proof.
-    induction hist as [|[k a] r IH]; intros f Hf; [reflexivity|].
-    cbn [resign resign_pe]. rewrite sign_file_eq by exact Hf.
+    induction hist as [|[k a] r IH]; intros f Hf Hs; [reflexivity|].
+    cbn [resign resign_pe]. rewrite sign_file_eq by (try exact Hf; intros pre E; apply (Hs pre k a E); left; reflexivity).
     destruct (sign_pe k a f) as [g| |] eqn:E; cbn [bind]; try reflexivity.
-    apply IH. eapply sign_pe_bytes; eauto.
+    destruct (sign_pe_inv k a f g Hf ltac:(intros pre E'; apply (Hs pre k a E'); left; reflexivity) E) as [Bg Hg].
+    apply IH; [exact Bg|]. intros pre k' a' E' I. apply (Hs pre k' a'); [rewrite <- Hg; exact E'|right; exact I].
   Qed.
 
   (* C01 *)
-  Theorem sign_then_verify_pe k a f g : all_bytes f = true -> sign_pe k a f = Ok g -> verify_pe g = Accept pubk (pub k) a.
+  Theorem sign_then_verify_pe k a f g : all_bytes f = true -> (forall pre, hashin f = Ok pre -> small_for pre k a) ->
+    sign_pe k a f = Ok g -> verify_pe g = Accept pubk (pub k) a.
   Proof.
-    intros Hf Hs. rewrite <- sign_file_eq in Hs by exact Hf.
+    intros Hf Hsm Hs. rewrite <- sign_file_eq in Hs by assumption.
     exact (sign_then_verify key pubk sigv H pub sign vrfy sign_correct tbs ser deser0 deser_ser bytes pe_format pe_L1 pe_L2 k a f g Hs).
   Qed.
   (* C08 *)
-  Theorem resign_history_pe hist f g k a : all_bytes f = true -> resign_pe (hist ++ [(k, a)]) f = Ok g ->
+  Theorem resign_history_pe hist f g k a : all_bytes f = true ->
+    (forall pre k' a', hashin f = Ok pre -> In (k', a') (hist ++ [(k, a)]) -> small_for pre k' a') ->
+    resign_pe (hist ++ [(k, a)]) f = Ok g ->
     verify_pe g = Accept pubk (pub k) a /\ is_signed bytes pe_format g = true /\ payload g = payload f /\ hashin g = hashin f.
   Proof.
-    intros Hf Hs. rewrite <- resign_eq in Hs by exact Hf.
+    intros Hf Hsm Hs. rewrite <- resign_eq in Hs by assumption.
     exact (resign_history key pubk sigv H pub sign vrfy sign_correct tbs ser deser0 deser_ser bytes pe_format pe_L1 pe_L2 pe_L3 hist f g k a Hs).
   Qed.
 
